@@ -120,6 +120,12 @@ CHECKS = {
         text="Every structure (data member set, mapped C# type, nullable, null-ignoring, JSON-constructor assignment), every enumeration, every method (LSPRequest method string and pairing, LSPResponse pairing, LSPMethods catalogue, Direction of request and notification classes, envelope member types).",
         note="Own parser for the emitted C# subset; no .NET toolchain exists in the image, so the text is checked as the property says.",
         ref="3/C08"),
+    "C06": dict(
+        engine="EVO",
+        technique="breadth-first exploration of spec-evolution edit sequences (explicit states = metamodel documents, de-duplicated on canonical hash); per state the four real plugins are run and the artefact checkers (BISIM C04/C07/C08/C09, VSE C01/C02/C03/C10 on the affected region, C17 on changed vectors) are the state invariant",
+        text="Depth 1 over the edit alphabet (new structures, properties x owner x type x name x optionality, inheritance, enumerations, requests/notifications with and without typeName, marks, removal) plus dependent depth-2 sequences; every state: schema validity, plugins through the real CLI, import of the emitted module with the unchanged runtime files in a fresh interpreter, all artefact checkers for the evolved model.",
+        note="Edits stay inside the documented input discipline; sequences longer than 2 and edits outside the alphabet are not covered; testdata plugin exercised through generate().",
+        ref="3/C06"),
 }
 
 PENDING_REASON = "check not built yet in this session (planned, see DESIGN.md section 3); not claimed until it exists"
@@ -177,6 +183,7 @@ ENGINES = [
     {"name": "BISIM", "path": "lspverif/img_py.py", "serves_properties": ["C04", "C05", "C07", "C08", "C09", "C17"], "kind_free_text": "product-graph exploration metamodel x generated artefact, simulation checked in both directions"},
     {"name": "HIST", "path": "lspverif/hist.py", "serves_properties": ["C16", "C18"], "kind_free_text": "exhaustive enumeration of event histories on the real generator entry points with nondeterminism seams"},
     {"name": "SCHED", "path": "lspverif/sched.py", "serves_properties": ["C19"], "kind_free_text": "stateless schedule explorer for real Python threads (settrace + semaphore baton), preemption-bounded"},
+    {"name": "EVO", "path": "lspverif/evo.py", "serves_properties": ["C06"], "kind_free_text": "breadth-first exploration of metamodel edit sequences; composes the other engines as state invariant"},
     {"name": "GRID", "path": "lspverif/props/c12.py", "serves_properties": ["C12", "C20"], "kind_free_text": "exhaustive boundary-grid enumeration on the real classes and validators"},
 ]
 
